@@ -224,8 +224,9 @@ def monitor(ctx, st):
                     continue  # a directory that just received its first ascmhl sub-folder
                 made = {os.path.normpath(os.path.join(base_rel, os.path.dirname(r_))) for k_, r_ in touched_eff
                         if k_ == "mkdir" and os.path.basename(r_) == "ascmhl"}
-                if os.path.normpath(rel) in made:
-                    continue  # ... or received it for the duration of a run that failed and took it away again
+                if os.path.normpath(rel) in made and res.outcome[0] == "abort":
+                    continue  # ... or received it for the duration of a run that broke off with an exception and took it
+                    # away again (a run that ends normally and records nothing has no business creating the folder)
             what = "content" if pre[:3] != post[:3] else "mtime" if pre[3] != post[3] else "mode"
             is_manifest = os.path.basename(os.path.dirname(rel)) == "ascmhl"
             if is_manifest and not b.endswith(".mhl") and b != "ascmhl_chain.xml":
